@@ -3,6 +3,7 @@
 -/
 import TwProofs.Lemmas.Escape
 import TwProofs.Lemmas.TextIf
+import TwProofs.Lemmas.TextRaw
 
 namespace Tw.C10
 open Tw
@@ -71,5 +72,31 @@ example : evaluateStringPure [] (b "{{ '<b>&amp;\"x\"</b>' }}") [] = .ok (b "&lt
   have h2 : literalValue (b "<b>&amp;\"x\"</b>") = b "&lt;b&gt;&amp;amp;\"x\"&lt;/b&gt;" := by decide
   rw [h2] at h
   exact h
+
+/-- **`raw()` is the exact opt-out, from the source bytes**: the template `{{ "text".raw() }}` — either
+    quote, any white space inside the braces, any text without that quote and without a backslash,
+    angle brackets and ampersands included — renders exactly `text`, for every data map.  Lexer
+    (`lex_raw`), parser (`parse_strcall_stmt`) and evaluator (`raw_literal_exact`) composed. -/
+theorem raw_literal_prints_exact_from_source (custom : List ((VType × Bytes) × Nat)) (g1 g2 c : Bytes) (q : Byte)
+    (hg1 : allWs g1) (hg2 : allWs g2) (hq : q = 34 ∨ q = 39) (hp : PlainStr q c)
+    (data : List (Bytes × GoVal)) (env : Env) (henv : envFromMap data = .ok env) :
+    evaluateStringPure custom (rawSrc g1 q c g2) data = .ok c := by
+  obtain ⟨prog, t2, t4, t6, hpp, hs⟩ := parse_raw_source g1 q c g2 hg1 hg2 hq hp
+  unfold evaluateStringPure envOrFail
+  rw [hpp]
+  simp only [henv, hs]
+  rw [show evalFuel = (evalFuel - 5) + 3 + 1 + 1 from by decide, evalProg_cons, evalStmt_succ]
+  simp only [stmtBody, calleesAt_expr]
+  have hraw : kwRaw = b "raw" := by decide
+  rw [hraw, raw_literal_exact (evalFuel - 5) _ env t4 t2 c]
+  simp only [Res.bind_ok]
+  rw [evalProg_nil]
+  simp [resToOut, Val.toStr]
+
+example : evaluateStringPure [] (b "{{ \"<b>a & b</b>\".raw() }}") [] = .ok (b "<b>a & b</b>") := by
+  have := raw_literal_prints_exact_from_source [] [32] [32] (b "<b>a & b</b>") 34 (by decide) (by decide) (Or.inl rfl) (by decide) [] [[]] (by rfl)
+  have hs : rawSrc [32] 34 (b "<b>a & b</b>") [32] = b "{{ \"<b>a & b</b>\".raw() }}" := by decide
+  rw [hs] at this
+  exact this
 
 end Tw.C10
